@@ -50,7 +50,7 @@ And3(vs) == IF No \in vs THEN No ELSE IF Either \in vs THEN Either ELSE Yes
 MinI(a, b) == IF a <= b THEN a ELSE b
 
 -------------------------------------------------------------------------------
-(* URL pattern.  Same meaning as UrlPattern!Matches / MatchesStrict / PartMatches (checked by *)
+(* URL pattern.  Same meaning as UrlPattern!MatchesX / MatchesStrictX / PartMatches (checked by *)
 (* MC_C03!FastAgrees over the bounded domain) but evaluated on the part sequences computed   *)
 (* once, and with parameter recognition by set membership instead of string building.       *)
 
@@ -66,8 +66,11 @@ MatchInfo(pp, up) ==
         wild == np > 0 /\ pp[np].v = WildSeg
         b    == IF wild THEN np - 1 ELSE np
         body == b <= nu /\ \A i \in 1..b : PartMatchesF(pp[i], up[i])
-    IN  [loose  |-> body /\ (wild \/ nu = b),
-         strict |-> body /\ (IF wild THEN nu - b >= 1 ELSE nu = b),
+        \* a wildcard written as a path segment stands for path segments only: it does not swallow
+        \* further host labels (h.com/* does not match h.com.evil.net/x) - UrlPattern!HostShapeOK
+        shape == (wild /\ ~pp[np].h) => Cardinality({i \in 1..nu : up[i].h}) = Cardinality({i \in 1..np : pp[i].h})
+    IN  [loose  |-> body /\ shape /\ (wild \/ nu = b),
+         strict |-> body /\ shape /\ (IF wild THEN nu - b >= 1 ELSE nu = b),
          wild   |-> wild, body |-> b]
 
 \* q shadows p on u: q has a literal part equal to the URL's at a position where p has a
